@@ -136,11 +136,16 @@ def _expand_call(h, is_method, call, tag):
     body = [ren.visit(s) for s in body]
     if ret is not None:
         ret = ren.visit(ret)
-    for s in pre + body:
+    # inlined statements take the position of the call (rules order
+    # statements by line)
+    for s in pre + body + ([ret] if ret is not None else []):
         for n in ast.walk(s):
-            if not hasattr(n, "lineno"):
+            if isinstance(n, (ast.stmt, ast.expr, ast.excepthandler,
+                              ast.arg, ast.keyword)):
                 n.lineno = call.lineno
+                n.end_lineno = call.lineno
                 n.col_offset = 0
+                n.end_col_offset = 0
     return pre + body, ret
 
 
@@ -164,6 +169,9 @@ def inline_helpers(repo, rel, func, depth=2, keep=()):
             elif isinstance(st, ast.Return) and isinstance(
                     st.value, ast.Call):
                 call, kind = st.value, "return"
+            elif isinstance(st, (ast.For,)) and isinstance(
+                    st.iter, ast.Call):
+                call, kind = st.iter, "for"
             done = False
             if call is not None and level < depth:
                 hh = _helper_of(repo, rel, cls, call)
@@ -188,6 +196,12 @@ def inline_helpers(repo, rel, func, depth=2, keep=()):
                             out += body + [ast.Return(
                                 value=ret, lineno=st.lineno,
                                 col_offset=st.col_offset)]
+                            done = True
+                        elif kind == "for" and ret is not None:
+                            st.iter = ret
+                            st.body = process(st.body, level)
+                            st.orelse = process(st.orelse, level)
+                            out += body + [st]
                             done = True
             if done:
                 continue
